@@ -22,6 +22,14 @@
       custom-analysed symbol of the root context), then assignments (including the class-instance
       diversion), then `del` / `for` / `with` / comprehensions / `return`;
     * `C01_partial_success`: success itself on the call-free sub-fragment.
+    * `C01_return_*`: `visit_Return`'s own traversal of a returned display — elements one by one, a
+      returned dict keys first and then ALL values (the operand of a `**spread` is a value without a
+      key); `C01_return_dict_values_covered` / `C01_return_display_elements_covered`: every access in
+      every such value / element is reported (fragment `frag`);
+    * `C01_initialiser_any_bases` / `C01_initialiser_entry` / `C01_initialiser_covered`: a class WITH an
+      `__init__` is analysed the same way whatever its bases are spelled like (Enum / NamedTuple
+      heuristics included), the FileIr maps the class symbol to `FnA.analyse` of that body, and
+      neither the static methods analysed afterwards nor the merge into the FileIr overwrite it;
   Not proved: the lower bound over a fragment that also contains calls, assignments, loops, …
   (`C01_partial` of DESIGN §5 with the complete `dropped` table); the per-constructor facts
   above are its leaves.
@@ -30,6 +38,7 @@ import RattrProofs.Lemmas.Visit
 import RattrProofs.Lemmas.VisitSpec
 import RattrProofs.Lemmas.VisitCover
 import RattrProofs.Lemmas.FileAnalyser
+import RattrProofs.Lemmas.C01Callables
 
 namespace Rattr.C01
 open Rattr Rattr.FnA Rattr.Strs Rattr.AccessSpec
@@ -597,5 +606,194 @@ theorem fileAnalyser_test_keys :
     (match analyseFile envF "m".toList {} [] modF with
      | .ok (ir, _) => ir.map (fun p => p.1.name)
      | _ => []) = ["f".toList, "C.sm".toList] := by decide +kernel
+
+end Rattr.C01
+
+/-! ## Returned displays: `visit_Return` / `visit_ReturnValue` (its own traversal, not `generic_visit`) -/
+
+namespace Rattr.C01
+open Rattr Rattr.FnA Rattr.Strs Rattr.AccessSpec
+
+/-- `return (e₁, …)` / `return [e₁, …]` / `return {e₁, …}`: the elements are handled one by one. -/
+theorem C01_return_display_each (env : Env) (mn : Str) (kind : Str) (elts : List Node) (c : ECtx) (s : St) :
+    visit env mn (.ret [.seq kind elts c]) s = visitReturnElts env mn elts s := visit_ret_seq env mn kind elts c s
+
+/-- `return {k₁: v₁, **sp, …}`: the keys one by one, then ALL the values one by one. `vals` holds
+the operand of every `**spread` too (it has no key: `keys.length ≤ vals.length`). -/
+theorem C01_return_dict_each (env : Env) (mn : Str) (keys vals : List Node) (s : St) :
+    visit env mn (.ret [.dict keys vals]) s =
+      (visitReturnElts env mn keys s >>>= fun s => visitReturnElts env mn vals s) := visit_ret_dict env mn keys vals s
+
+/-- the elements of a returned display are handled in order, none is skipped. -/
+theorem C01_returnElts_each (env : Env) (mn : Str) (a b : List Node) (s : St) :
+    visitReturnElts env mn (a ++ b) s = (visitReturnElts env mn a s >>>= fun s₁ => visitReturnElts env mn b s₁) :=
+  visitReturnElts_append env mn a b s
+
+/-- an element that is neither a display nor a call (a name chain, a BinOp, a comprehension, …) is
+visited like anywhere else. -/
+theorem C01_returnElt_plain_visited (env : Env) (mn : Str) (e : Node) (r : List Node) (s : St)
+    (h : plainElt e = true) :
+    visitReturnElts env mn (e :: r) s = (visit env mn e s >>>= fun s₁ => visitReturnElts env mn r s₁) :=
+  visitReturnElts_plain env mn e r s h
+
+/-- every value of a returned dict — keyed or the operand of a `**spread` — has all its accesses
+reported (keys and values in the fragment `frag D F`, from any state satisfying the invariant). -/
+theorem C01_return_dict_values_covered (env : Env) (mn : Str) (D : List Str) (F : Feat) (hm : ModClean env mn)
+    (keys vals : List Node) (hf : F.flow = true) (hk : fragL D F keys = true) (hv : fragL D F vals = true)
+    (s s' : St) (hI : Inv env mn D s) (h : visit env mn (.ret [.dict keys vals]) s = .ok s') :
+    (∀ v ∈ vals, ∀ a ∈ accesses false v, present a s' = true) ∧
+    (∀ k ∈ keys, ∀ a ∈ accesses false k, present a s' = true) := by
+  have hn : frag D F (.ret [.dict keys vals]) = true := by simp [frag, hf, hk, hv]
+  have hc := (C01_partial_visit env mn D F hm _ hn s s' hI h).2.1
+  have e : accesses false (.ret [.dict keys vals]) = accessesL keys ++ accessesL vals := by
+    simp [accesses, accessesL]
+  rw [e] at hc
+  exact ⟨fun v hv' a ha => hc a (List.mem_append_right _ (mem_accessesL hv' ha)),
+         fun k hk' a ha => hc a (List.mem_append_left _ (mem_accessesL hk' ha))⟩
+
+/-- … and every element of a returned tuple / list / set. -/
+theorem C01_return_display_elements_covered (env : Env) (mn : Str) (D : List Str) (F : Feat) (hm : ModClean env mn)
+    (kind : Str) (elts : List Node) (c : ECtx) (hf : F.flow = true) (he : fragL D F elts = true)
+    (s s' : St) (hI : Inv env mn D s) (h : visit env mn (.ret [.seq kind elts c]) s = .ok s') :
+    ∀ v ∈ elts, ∀ a ∈ accesses false v, present a s' = true := by
+  have hn : frag D F (.ret [.seq kind elts c]) = true := by simp [frag, hf, he]
+  have hc := (C01_partial_visit env mn D F hm _ hn s s' hI h).2.1
+  have e : accesses false (.ret [.seq kind elts c]) = accessesL elts := by simp [accesses, accessesL]
+  rw [e] at hc
+  exact fun v hv' a ha => hc a (mem_accessesL hv' ha)
+
+/-- `return {**base.defaults, k.name: v.value, **extra.overrides()}`: one key, three values. -/
+def bodyReturnSpread : List Node :=
+  [.ret [.dict [att (nm "k") "name"]
+    [att (nm "base") "defaults", att (nm "v") "value", call (att (nm "extra") "overrides") []]]]
+
+/-- `return [{**a.p}, ({**b.q},), {'k': {**a.r}}]`: spreads in dicts nested in list / tuple / dict value. -/
+def bodyReturnNested : List Node :=
+  [.ret [.seq (S "List") [.dict [] [att (nm "a") "p"], .seq (S "Tuple") [.dict [] [att (nm "b") "q"]] .load,
+    .dict [.strConst (S "k")] [.dict [] [att (nm "a") "r"]]] .load]]
+
+/-- TEST (kernel evaluation): both bodies are in the full fragment under the real plugin table, and
+the operands of the spreads — `base.defaults`, the call `extra.overrides`, `a.p`, `b.q`, `a.r` — are
+reported along with everything else the spec lists. -/
+theorem C01_test_return_spread :
+    fragL (dirtyKeys env0 (S "m") root1) ⟨true, true, true⟩ bodyReturnSpread = true ∧
+    fragL (dirtyKeys env0 (S "m") root1) ⟨true, true, true⟩ bodyReturnNested = true ∧
+    getsOf (analyse env0 (S "m") root1 (P ["base", "extra", "k", "v"]) bodyReturnSpread) =
+      some [S "k.name", S "base.defaults", S "v.value"] ∧
+    callsOf (analyse env0 (S "m") root1 (P ["base", "extra", "k", "v"]) bodyReturnSpread) = some [S "extra.overrides"] ∧
+    (accessesL bodyReturnSpread).all (fun a =>
+      presentR a (analyse env0 (S "m") root1 (P ["base", "extra", "k", "v"]) bodyReturnSpread)) = true ∧
+    getsOf (analyse env0 (S "m") root1 (P ["a", "b"]) bodyReturnNested) = some [S "a.p", S "b.q", S "a.r"] := by
+  decide +kernel
+
+/-- `C01_return_dict_values_covered` is not vacuous: `bodyReturnSpread`'s dict from the initial state
+(`ModClean`, the invariant, and success all hold). -/
+example : ModClean env0 (S "m") ∧
+    Inv env0 (S "m") (dirtyKeys env0 (S "m") root1) (analyseInit root1 (P ["base", "extra", "k", "v"])) ∧
+    (getsOf (visitList env0 (S "m") bodyReturnSpread (analyseInit root1 (P ["base", "extra", "k", "v"])))).isSome = true := by
+  refine ⟨by unfold ModClean; decide, ?_, by decide +kernel⟩
+  haveI : ModCleanC env0 (S "m") := ⟨by unfold ModClean; decide⟩
+  exact analyseInit_ctxAll (ctxAll_dirtyKeys env0 (S "m") root1) (P ["base", "extra", "k", "v"])
+
+end Rattr.C01
+
+/-! ## Class initialisers: an explicit `__init__` wins over every base-class heuristic -/
+
+namespace Rattr.C01
+open Rattr Rattr.FnA Rattr.Strs Rattr.FileA Rattr.RootCtx Rattr.AccessSpec
+
+/-- a class with an `__init__`: `ClassAnalyser.analyse()` does not depend on the bases at all — the
+Enum / NamedTuple default initialisers are only ever used for a class WITHOUT one. -/
+theorem C01_initialiser_any_bases (env : Env) (mn : Str) (cls : Str) (bases bases' : List Node) (body : List Top)
+    (decos : List Ann.Deco) (s : FState) (k : FState → ClassIr → FOut) (h : initsOf body ≠ []) :
+    classAnalyse env mn cls bases body decos s k = classAnalyse env mn cls bases' body decos s k :=
+  classAnalyse_bases_irrelevant env mn cls bases bases' body decos s k h
+
+/-- the static-method loop only assigns `Func` keys: the entry of the class symbol survives it. -/
+theorem C01_static_methods_keep_initialiser (env : Env) (mn : Str) (cls : Str) (key : Sym) (hkey : key.kind ≠ .func)
+    (ms : List Method) (s : FState) (cir : ClassIr) (k : FState → ClassIr → FOut) (r : FState)
+    (h : staticLoop env mn cls ms s cir k = .ok r) :
+    ∃ s' cir', k s' cir' = .ok r ∧ Dict.get? cir' key = Dict.get? cir key := by
+  obtain ⟨s', cir', hk, hg, _⟩ := staticLoop_preserves env mn cls key hkey ms s cir k r h
+  exact ⟨s', cir', hk, hg⟩
+
+/-- a module-level class (ANY bases) with a synchronous `__init__`, not ignored / excluded / declared:
+after `FileAnalyser.visit_ClassDef` the FileIr maps the class symbol (carrying `__init__`'s
+interface) to `FnA.analyse` of the initialiser's body, in the context as the class-body walk left it. -/
+theorem C01_initialiser_entry (env : Env) (mn : Str) (f : Facts) (cls : Str) (bases : List Node) (body : List Top)
+    (decos : List Ann.Deco) (s r : FState) (init : Method) (rest : List Method) (w : St) (sy : Sym) (t : St)
+    (hinit : initsOf body = init :: rest) (hsync : init.isAsync = false)
+    (hwalk : classWalkL cls (body.filter fun t => !isMethod t) { ctx := s.ctx } = .ok w)
+    (hi : Ann.hasAnnotation Ann.nIgnore decos = .ok false) (hx : cls ∉ f.excluded)
+    (hsy : getClass w.ctx cls = some sy)
+    (hr : Ann.hasAnnotation Ann.nResults decos = .ok false)
+    (ht : FnA.analyse env mn (updateSymbol w.ctx { sy with iface := some init.ps.iface, callable := true })
+            init.ps init.body = .ok t)
+    (h : visitTop env mn f (.classDef cls bases body decos) s = .ok r) :
+    Dict.get? r.ir { sy with iface := some init.ps.iface, callable := true } = some (FileA.irOf t) := by
+  rw [visitTop.eq_def] at h
+  exact visitClassDef_init_entry env mn f cls bases body decos s r init rest w sy t hinit hsync hwalk hi hx hsy hr ht h
+
+/-- … and, when the initialiser's body lies in the fragment of `C01_partial_flow`, that entry holds
+every access of the body — for an `Enum` / `NamedTuple` subclass exactly as for a plain class. -/
+theorem C01_initialiser_covered (env : Env) (mn : Str) (f : Facts) (cls : Str) (bases : List Node) (body : List Top)
+    (decos : List Ann.Deco) (s r : FState) (init : Method) (rest : List Method) (w : St) (sy : Sym) (t : St)
+    (hm : ModClean env mn)
+    (hinit : initsOf body = init :: rest) (hsync : init.isAsync = false)
+    (hwalk : classWalkL cls (body.filter fun t => !isMethod t) { ctx := s.ctx } = .ok w)
+    (hi : Ann.hasAnnotation Ann.nIgnore decos = .ok false) (hx : cls ∉ f.excluded)
+    (hsy : getClass w.ctx cls = some sy)
+    (hr : Ann.hasAnnotation Ann.nResults decos = .ok false)
+    (hb : fragL (dirtyKeys env mn (updateSymbol w.ctx { sy with iface := some init.ps.iface, callable := true }))
+            ⟨true, true, true⟩ init.body = true)
+    (ht : FnA.analyse env mn (updateSymbol w.ctx { sy with iface := some init.ps.iface, callable := true })
+            init.ps init.body = .ok t)
+    (h : visitTop env mn f (.classDef cls bases body decos) s = .ok r) :
+    Dict.get? r.ir { sy with iface := some init.ps.iface, callable := true } = some (FileA.irOf t) ∧
+    ∀ a ∈ accessesL init.body, present a t = true :=
+  ⟨C01_initialiser_entry env mn f cls bases body decos s r init rest w sy t hinit hsync hwalk hi hx hsy hr ht h,
+   analyse_cover hm hb ht⟩
+
+/-- the `enum` documentation's `Planet`:
+`class Planet(<bases>): EARTH = …; MARS = …; def __init__(self, spec): self.mass = spec.mass;
+ self.radius = spec.size.radius; spec.register(self.mass); del spec.scratch` -/
+def planetBody (withInit : Bool) : List Top :=
+  [.assign [nm "EARTH" .store] [] (some .const), .assign [nm "MARS" .store] [] (some .const)] ++
+  (if withInit then
+    [.funcDef (S "__init__") (P ["self", "spec"])
+      [.assign [att (nm "self") "mass" .store] (att (nm "spec") "mass"),
+       .assign [att (nm "self") "radius" .store] (att (att (nm "spec") "size") "radius"),
+       expr (call (att (nm "spec") "register") [att (nm "self") "mass"]),
+       .delete [att (nm "spec") "scratch" .del]] [] false]
+   else [])
+
+def planetModule (bases : List Node) (withInit : Bool) : List Top :=
+  [.classDef (S "Planet") bases (planetBody withInit) []]
+
+/-- the FileIr entry of `Planet`: (interface args, gets, sets, dels, calls) -/
+def planetEntry (bases : List Node) (withInit : Bool) : Option (List (List Str)) :=
+  match analyseFile envF (S "m") {} [] (planetModule bases withInit) with
+  | .ok ([(k, ir)], _) =>
+    some [(k.iface.map (·.args)).getD [], ir.gets.map (·.full), ir.sets.map (·.full), ir.dels.map (·.full),
+          ir.calls.map (·.name)]
+  | _ => none
+
+/-- TEST (kernel evaluation of S2 + S4): with the explicit initialiser the entry of `Planet` is the
+same for the bases `Enum`, `enum.Enum`, `NamedTuple`, `(Enum, NamedTuple)` and no base at all — the
+body of `__init__`; only WITHOUT an `__init__` do the heuristics produce the synthetic initialisers
+(`(self, _id)` reading the members / `(self, <fields>)`). -/
+theorem C01_test_planet :
+    planetEntry [] true = some [[S "self", S "spec"], [S "spec.mass", S "spec.size.radius", S "self.mass"],
+      [S "self.mass", S "self.radius"], [S "spec.scratch"], [S "spec.register"]] ∧
+    planetEntry [nm "Enum"] true = planetEntry [] true ∧
+    planetEntry [att (nm "enum") "Enum"] true = planetEntry [] true ∧
+    planetEntry [nm "NamedTuple"] true = planetEntry [] true ∧
+    planetEntry [nm "Enum", att (nm "typing") "NamedTuple"] true = planetEntry [] true ∧
+    planetEntry [nm "Enum"] false = some [[S "self", S "_id"], [S "Planet.EARTH", S "Planet.MARS"], [], [], []] ∧
+    planetEntry [nm "NamedTuple"] false = some [[S "self", S "EARTH", S "MARS"], [], [], [], []] ∧
+    planetEntry [] false = none := by decide +kernel
+
+/-- `C01_initialiser_any_bases` applies to `Planet`. -/
+example : initsOf (planetBody true) ≠ [] := by decide
 
 end Rattr.C01
